@@ -262,6 +262,12 @@ def morphAt (src : Int → Int → Int) (w h : Nat) (ker : List Int) (ks cy cx :
           if dilation then max (src col_boundary row_boundary) acc else min (src col_boundary row_boundary) acc
         else acc) acc) (src (x : Int) (y : Int))
 
+/-- one erosion / dilation step of `morph_impl` as a function on pixel coordinates (for stating compositions) -/
+def erodeFn (w h : Nat) (ker : List Int) (ks cy cx : Nat) (g : Int → Int → Int) : Int → Int → Int :=
+  fun a b => morphAt g w h ker ks cy cx false a.toNat b.toNat
+def dilateFn (w h : Nat) (ker : List Int) (ks cy cx : Nat) (g : Int → Int → Int) : Int → Int → Int :=
+  fun a b => morphAt g w h ker ks cy cx true a.toNat b.toNat
+
 def imgFn (w : Nat) (plane : List Int) : Int → Int → Int :=
   fun x y => if 0 ≤ x ∧ 0 ≤ y then plane.getD (y.toNat * w + x.toNat) 0 else 0
 
